@@ -11,7 +11,11 @@ Inductive c20case :=
 | CRender (id : list N) (s : list N) (pat : bool)
 | CParse (s : list N) (ok : bool) (id : list N) (pat : bool)
 | CHash (ns : list N) (ins : list (list N)) (id : list N)
-| CEmit (pat : list N).   (* a validation pattern the compiler emitted for a key:id62 field *)
+| CEmit (pat : list N)    (* a validation pattern the compiler emitted for a key:id62 field *)
+| CReadback (pat : list N) (id62 : bool).
+    (* the one pattern the compiler emitted for a key:id62 field (in any position: direct, array items,
+       map values) and whether the schema reader, reflecting the compiled message, recognised the
+       field as a key of format id62 *)
 
 Definition model_pattern (s : list N) : bool :=
   match parse_pattern Id62Gen.pattern_string with
@@ -35,4 +39,6 @@ Definition c20_check (c : c20case) : bool :=
       end
   | CHash ns ins id => nlist_eqb (new_hash ns ins) id
   | CEmit pat => nlist_eqb pat Id62Gen.pattern_string
+  | CReadback pat id62 =>
+      Bool.eqb (reads_back_as Id62Gen.reader_patterns Id62Gen.reader_id62_format pat) id62
   end.
